@@ -1127,9 +1127,13 @@ fn stream_frames(env: &Env, src: &mut Src<'_>) -> CaseResult {
 
     // reference: the frames a parser may deliver are the leading ones that pass the (cheap)
     // structural test of `EncryptedHybridReport::from_bytes`
-    let structurally_ok = |b: &Vec<u8>| !b.is_empty() && b[0] <= 1 && b.len() - 1 >= INFO_OFF;
-    let deliverable = bodies.iter().take_while(|b| structurally_ok(b)).count();
-    let all_clean = deliverable == bodies.len() && tl == "clean";
+    // (how strict the structural test is - e.g. whether a record too short to hold its metadata
+    // is refused by the parser or only later by the decryptor - is the code's choice; the
+    // oracle only uses what can never be a report and what certainly is one)
+    let impossible = |k: &Frame| matches!(k, Frame::Zero | Frame::Short | Frame::BadEvent);
+    let deliverable = kinds.iter().take_while(|k| !impossible(k)).count();
+    let all_valid = kinds.iter().all(|k| matches!(k, Frame::Valid)) && tl == "clean";
+    let must_error = kinds.iter().any(impossible) || tl != "clean";
 
     let case = || {
         json!({
@@ -1166,12 +1170,12 @@ fn stream_frames(env: &Env, src: &mut Src<'_>) -> CaseResult {
     } else {
         let n = delivered.borrow().len();
         if n > deliverable {
-            return Err(violation("stream-delivers-invalid-frame", format!("{n} records delivered, only the first {deliverable} frames are structurally valid"), case()));
+            return Err(violation("stream-delivers-invalid-frame", format!("{n} records delivered, but frame {deliverable} can never be a report (empty, shorter than the fixed-size fields, or unknown event type)"), case()));
         }
-        if all_clean && (ended.get() != 1 || n != bodies.len()) {
-            return Err(violation("stream-loses-records", format!("well-formed stream of {} frames: {n} delivered, end state {}", bodies.len(), ended.get()), case()));
+        if all_valid && (ended.get() != 1 || n != bodies.len()) {
+            return Err(violation("stream-loses-records", format!("stream of {} valid reports: {n} delivered, end state {}", bodies.len(), ended.get()), case()));
         }
-        if !all_clean && ended.get() != 2 {
+        if must_error && ended.get() != 2 {
             known_or_violation(
                 env,
                 "stream-error-swallowed",
